@@ -101,7 +101,10 @@ def r16_1(chk):
              f"t = {unparse(tdef.value) if tdef else '?'}; dt = {unparse(dtdef.value) if dtdef else '?'}", loc(f, tdef or f.node))
     # result wiring: new = evol_mat @ orb + accel_mat @ accel ; new.date = orb.date + dt
     rets = [st for st in body_without_doc(f.node) if isinstance(st, ast.Assign) and unparse(st.targets[0]) == "new"]
-    ok = len(rets) == 1 and unparse(rets[0].value).replace(" ", "") in ("evol_mat@orb+accel_mat@accel", "accel_mat@accel+evol_mat@orb")
+    val = rets[0].value if len(rets) == 1 else None
+    if isinstance(val, ast.Call) and isinstance(val.func, ast.Attribute) and val.func.attr == "copy" and not val.args:
+        val = val.func.value          # a defensive copy of the result does not change its value
+    ok = val is not None and unparse(val).replace(" ", "") in ("evol_mat@orb+accel_mat@accel", "accel_mat@accel+evol_mat@orb")
     chk.inst("R16.1", f"{f.ref}::new==evol_mat@orb+accel_mat@accel", ok,
              "result is Phi·x + Psi·a" if ok else f"new = {unparse(rets[0].value) if rets else '?'}", loc(f, rets[0] if rets else f.node))
     dts = [st for st in body_without_doc(f.node) if isinstance(st, ast.Assign) and unparse(st.targets[0]) == "new.date"]
